@@ -470,7 +470,9 @@ def check_order(ctx: Context, rep, rule: str) -> None:
 # ---------------------------------------------------------------------------
 INT_FIT_INT64 = {"int8", "int16", "int32", "int64", "uint8", "uint16", "uint32",
                  "bool"}
-FLOAT_FIT_FLOAT32 = {"float32", "float16", "bfloat16"}
+# narrower floats embed by value but the widen / narrow casts canonicalise
+# NaN payloads, so only float32 itself is admitted in a FloatList
+FLOAT_FIT_FLOAT32 = {"float32"}
 PARSEABLE = {"tf.float32", "tf.int64", "tf.string"}
 
 
@@ -675,7 +677,7 @@ def check_tfrec(ctx: Context, rep, rule: str) -> None:
             need = "reader tf.int64 and an integer type that fits int64"
         elif kind == "float_feature":
             ok = r == "tf.float32" and d in FLOAT_FIT_FLOAT32
-            need = "reader tf.float32 and a float type of at most 32 bits"
+            need = "reader tf.float32 and dtype float32 (casts canonicalise NaNs)"
         elif kind == "bytes_feature+serialize_tensor":
             ok = r == "tf.string" and parse.get(d) == f"tf.{d}" and \
                 bool(parse_sites)
@@ -690,6 +692,25 @@ def check_tfrec(ctx: Context, rep, rule: str) -> None:
                    f" parse {parse.get(d)}" if "serialize" in kind else ""),
                message=f"accepted dtype must be readable and lossless: need "
                f"{need}")
+    if rule.startswith("C01"):
+      rep.rule(
+        "C01.tfrec-floatlist",
+        "frozen fact about the container: a tf.train.FloatList is filled "
+        "element by element through Python floats (C double) and parsed "
+        "back as float32, which quiets signalling NaNs (0x7f800001 reads "
+        "back as 0x7fc00001); a narrower float additionally goes through "
+        "casts that canonicalise every NaN. So no dtype stored in a "
+        "FloatList is bit-preserving over all bit patterns; only serialized "
+        "tensors and byte strings are")
+    for d, (kind, node) in sorted(writer.items()):
+        # (bit patterns are C01's concern only; C18 shares the tables)
+        if kind == "float_feature" and rule.startswith("C01"):
+            rep.ob("C01.tfrec-floatlist", False, loc=to.loc(node),
+                   where=to.qualname,
+                   construct=f"{d} stored in a tf.train.FloatList",
+                   message=f"{d} values with signalling-NaN bit patterns do "
+                   "not read back bit-identically from TFRecord shards "
+                   "(the FloatList path converts through C double)")
     for d, r in sorted(reader.items()):
         rep.ob(rule, r in PARSEABLE or d not in writer, loc=frm.loc(rd),
                where=frm.qualname, construct=f"reader {d}: {r}",
@@ -903,6 +924,16 @@ def run(ctx: Context, rep) -> None:
     check_npz_save(ctx, rep, "C01.npz-save")
     check_npz_reader(ctx, rep, "C01.npz-reader")
     check_npz_bytes(ctx, rep, "C01.npz-bytes")
+    # what an accepted example stores depends on that example only: a writer
+    # keeps no per-example state on `self` that a previous (rejected) write
+    # could have left behind (same analysis as C18.state)
+    from sa.rules.c18 import check_writer_state
+    rep.rule(
+        "C01.state",
+        "every shard writer's _write mutates only its example store, lazily "
+        "created resources and the FlatBuffers builder: no scratch state on "
+        "self carries values from one example into the next")
+    check_writer_state(ctx, rep, "C01.state")
 
 
 _FBW = "src/sedpack/io/shard/shard_writer_flatbuffer.py"
@@ -911,6 +942,9 @@ _CMP = "src/sedpack/io/compress.py"
 _TFD = "src/sedpack/io/tfrec/tfdata.py"
 _NPW = "src/sedpack/io/shard/shard_writer_np.py"
 SELFTESTS = [
+    dict(rule="C01.tfrec", name="float16-widened-into-floatlist", expect="fire", path=_TFD,
+         old='        elif attribute.dtype == "float32":\n',
+         new='        elif attribute.dtype in ("float32", "float16") and attribute.dtype != "float64":\n'),
     dict(rule="C01.cast", name="same-kind", expect="fire", path=_FBW,
          old='casting="safe"', new='casting="same_kind"'),
     dict(rule="C01.cast", name="equiv-twin", expect="silent", path=_FBW,
